@@ -207,7 +207,9 @@ EnumOK(s, d) == \E i \in DOMAIN s.enum : JEq(s.enum[i], d)
 
 Valid(env, s, d, D, ctx, lim) ==
   IF Has(s, "ref") THEN ValidRef(env, s, d, D)
-  ELSE IF Has(s, "enum") THEN B3(EnumOK(s, d))
+  ELSE IF Has(s, "enum") THEN
+         \* null where the enum does not list it: unspecified, like null at any non-nullable position
+         (IF EnumOK(s, d) THEN Acc ELSE IF d.t = "null" THEN Un ELSE Rej)
   ELSE IF Has(s, "allOf") THEN
          \* the tool merges the branches into one struct, so "declared" (for deviation
          \* RequiredUndeclaredIgnored) means declared by ANY branch
@@ -260,7 +262,10 @@ Valid(env, s, d, D, ctx, lim) ==
 
 ValidRef(env, s, d, D) ==
   IF ~EnvHas(env, s.ref.n) THEN Un
-  ELSE Valid(env, EnvGet(env, s.ref.n), d, D, "decl", NoLim)
+  ELSE LET t == EnvGet(env, s.ref.n) IN
+       \* deviation: a definition with neither `type` nor `properties` is referenced as interface{}
+       IF "UntypedEnumDefUnvalidated" \in D /\ ~Has(t, "type") /\ ~Has(t, "properties") THEN Acc
+       ELSE Valid(env, t, d, D, "decl", NoLim)
 
 ValidObj(env, s, d, D) ==
   LET declared == IF Has(s, "declared") THEN s.declared ELSE PropNames(s)
@@ -278,5 +283,62 @@ ValidObj(env, s, d, D) ==
                    \* demands it (C02 speaks only of objects that allow them) => unspecified
                    [] addl.k = "s" -> {Valid(env, addl.s, ObjVal(d, k), D, "addl", NoLim) : k \in extra}
   IN And3({reqOK} \cup propsOK \cup extraOK)
+
+(* ---------- decoded values (C02, C08, C09) ---------- *)
+\* "Empty" values are the ones Go's omitempty drops when marshalling
+NonEmpty(d) == ~( d.t = "null" \/ (d.t = "bool" /\ ~d.b) \/ (d.t = "num" /\ d.h = 0)
+                \/ (d.t = "str" /\ d.s = <<>>) \/ (d.t = "arr" /\ d.a = <<>>) \/ (d.t = "obj" /\ d.o = <<>>) )
+
+\* does the generated struct carry an AdditionalProperties field (explicit keyword that is not `false`)?
+CollectsAddl(s) == Has(s, "additionalProperties") /\ ~(s.additionalProperties.k = "b" /\ ~s.additionalProperties.b)
+IsStruct(s) == Main(s) = "object" /\ Props(s) # <<>>
+
+\* Decoded(env, s, d, v, D): the reflective dump v of the destination faithfully holds document d decoded
+\* under schema s -- every declared property value in the field bound to that exact name, array
+\* elements in order, enum values bare, defaults for absent/null properties, and exactly the
+\* undeclared keys in the additional-properties map.  d is assumed valid under s.
+RECURSIVE Decoded(_, _, _, _, _)
+Decoded(env, s, d, v, D) ==
+  IF Has(s, "ref") THEN (~EnvHas(env, s.ref.n) \/ Decoded(env, EnvGet(env, s.ref.n), d, v, D))
+  ELSE IF d.t = "null" THEN TRUE
+  ELSE IF Has(s, "enum") THEN JEq(v, d)
+  ELSE IF Has(s, "allOf") \/ Has(s, "anyOf") THEN TRUE           \* judged by C11
+  ELSE IF IsStruct(s) THEN
+       /\ v.t = "obj"
+       /\ \A k \in PropNames(s) :
+             LET ps == PropSchema(s, k)
+                 given == ObjHas(d, k) /\ ObjVal(d, k).t # "null"
+             IN IF given THEN ObjHas(v, k) /\ Decoded(env, ps, ObjVal(d, k), ObjVal(v, k), D)
+                ELSE IF Has(ps, "default") THEN
+                       \/ ObjHas(v, k) /\ JEq(ObjVal(v, k), ps.default)
+                       \/ ("EnumNullDefault" \in D /\ FALSE)
+                ELSE TRUE
+       /\ CollectsAddl(s) =>
+             LET extra == ObjKeys(d) \ PropNames(s) IN
+             /\ ObjHas(v, "AdditionalProperties")
+             /\ LET m == ObjVal(v, "AdditionalProperties") IN
+                IF extra = {} THEN m.t \in {"null", "obj"} /\ (m.t = "obj" => m.o = <<>>)
+                ELSE m.t = "obj" /\ ObjKeys(m) = extra /\ \A k \in extra : JEq(ObjVal(m, k), ObjVal(d, k))
+  ELSE IF Main(s) = "object" THEN        \* no declared properties: a Go map
+       d.t = "obj" => (v.t = "obj" /\ ObjKeys(v) = ObjKeys(d) /\ \A k \in ObjKeys(d) : JEq(ObjVal(v, k), ObjVal(d, k)))
+  ELSE IF Main(s) = "array" THEN
+       /\ v.t = "arr" /\ Len(v.a) = Len(d.a)
+       /\ \A i \in DOMAIN d.a : Decoded(env, IF Has(s, "items") THEN s.items ELSE [type |-> <<>>], d.a[i], v.a[i], D)
+  ELSE JEq(v, d)
+
+\* Reproduced(env, s, d, o): the re-marshalled JSON o reproduces every non-empty declared value of d
+RECURSIVE Reproduced(_, _, _, _)
+Reproduced(env, s, d, o) ==
+  IF Has(s, "ref") THEN (~EnvHas(env, s.ref.n) \/ Reproduced(env, EnvGet(env, s.ref.n), d, o))
+  ELSE IF ~NonEmpty(d) THEN TRUE
+  ELSE IF Has(s, "enum") THEN JEq(o, d)
+  ELSE IF Has(s, "allOf") \/ Has(s, "anyOf") THEN TRUE
+  ELSE IF IsStruct(s) THEN
+       o.t = "obj" /\ \A k \in PropNames(s) \cap ObjKeys(d) :
+           NonEmpty(ObjVal(d, k)) => ObjHas(o, k) /\ Reproduced(env, PropSchema(s, k), ObjVal(d, k), ObjVal(o, k))
+  ELSE IF Main(s) = "array" THEN
+       o.t = "arr" /\ Len(o.a) = Len(d.a)
+       /\ \A i \in DOMAIN d.a : Reproduced(env, IF Has(s, "items") THEN s.items ELSE [type |-> <<>>], d.a[i], o.a[i])
+  ELSE JEq(o, d)
 
 =============================================================================
